@@ -357,6 +357,14 @@ Definition restore (n : node) : node :=
                            <| n_conf := Some (s_conf s) |> <| n_cconf := Some (s_conf s) |>
             | None => n1
             end in
+  (* fix: D17 - a log that ends before the snapshot or conflicts with it is replaced by it *)
+  let n2 := match last (map Some (n_snaps n1)) None with
+            | Some s =>
+                if (last_index (n_log n2) <? s_index s)
+                   || match log_get (n_log n2) (s_index s) with Some e => negb (e_term e =? s_term s) | None => false end
+                then n2 <| n_log := log_discard (s_index s) (s_term s) |> else n2
+            | None => n2
+            end in
   let es := log_from (n_log n2) (first_index (n_log n2)) (n_lii n2 + 1) in
   let (c, cc) := conf_scan es (n_conf n2) (n_cconf n2) in
   n2 <| n_conf := c |> <| n_cconf := cc |>.
